@@ -107,6 +107,8 @@ def run(repo, rep):
     rule_saturating_stand_in(repo, rep)
     rep.clause("C13-be", "rewrites that run before the supported-operator check index a tensor's shape with a constant only under a test of its rank")
     rule_pre_check_shape_rank(repo, rep)
+    rep.clause("C13-bf", "a byte view of tensor data is taken of a flattened array (a 0-d array cannot change its item size): `<x>.view(<8-bit type>)` in the writer follows flatten() / ravel() / reshape(-1)")
+    rule_byte_view_rank(repo, rep)
     rep.clause("C13-ax", "an operator that the optimisation driver itself creates from a subgraph's tensors (not from an operator that passed the checks) is submitted to the supported-operator check before the driver returns")
     rule_driver_created_operators(repo, rep)
     rep.clause("C13-ay", "STRIDED_SLICE begin / end positions end up inside [0, dim] whatever the operand holds (the offsets become read windows unchecked)")
@@ -2932,3 +2934,21 @@ def rule_pre_check_shape_rank(repo, rep):
                       "on the CPU (AVERAGE_POOL_2D / CONV_2D on [1, 8], DEPTHWISE_CONV_2D with depth_multiplier 2 on [1, 4, 8], RESIZE_BILINEAR on [4, 8], TRANSPOSE_CONV [1, 4] -> [1, 8])")
     if m < 6:
         raise AnalysisError(f"supported-operator constraints: {m} constant shape indices found")
+
+
+def rule_byte_view_rank(repo, rep):
+    """(bf) numpy refuses `.view()` with a different item size on a 0-d array (ValueError). Scalar constants are 0-d: where the writer or the
+    serialiser takes a byte view of tensor values, the receiver is a flattened array (flatten / ravel / reshape(-1))."""
+    n = 0
+    for mn in ("tflite_writer", "npu_serialisation"):
+        m = repo.mod(mn)
+        for q, fn in m.functions.items():
+            for c in ast.walk(fn):
+                if not (isinstance(c, ast.Call) and isinstance(c.func, ast.Attribute) and c.func.attr == "view" and c.args and str(norm(c.args[0])).split(".")[-1] in ("uint8", "int8", "byte", "ubyte")):
+                    continue
+                n += 1
+                recv = c.func.value
+                flat = isinstance(recv, ast.Call) and isinstance(recv.func, ast.Attribute) and (recv.func.attr in ("flatten", "ravel") or (recv.func.attr == "reshape" and recv.args and str(norm(recv.args[0])) in ("-1", "(-1,)", "[-1]")))
+                rep.check(flat, "C13-bf", f"{m.rel}:{q}", f"`{str(norm(c))[:70]}` views a flattened array", f"receiver `{str(norm(recv))[:50]}` may be 0-d: a float32 / int32 scalar constant of a CPU operator raises ValueError in the writer")
+    if n < 1:
+        raise AnalysisError("byte views in the writer: none found")
